@@ -6,6 +6,8 @@ VERUS_UNITS = {
     "u5_ttl": dict(template="units/u5_ttl.vrs", rlimit=80),
     "u6_store": dict(template="units/u6_store.vrs", rlimit=120),
     "u7_glue": dict(template="units/u7_glue.vrs", rlimit=120),
+    "u19_async": dict(template="units/u19_async.vrs", rlimit=120),
+    "u19_async_policy": dict(template="units/u19_async_policy.vrs", rlimit=120),
 }
 
 # Kani harness groups: appended as a child module to `file` in a scratch copy of /repo
@@ -45,6 +47,7 @@ PROPS = {
     "C15": dict(units=["u7_glue", "u1_estimator"], kani=[], replay=["estimator"]),
     "C16": dict(units=["u7_glue", "u4_policy", "u6_store"], kani=[], replay=["policy", "ttl"]),
     "C17": dict(units=["u7_glue", "u4_policy"], kani=["histogram"], replay=["policy"]),
+    "C19": dict(units=["u19_async", "u19_async_policy", "u6_store"], kani=[], replay=[]),
 }
 
 ASSUMPTIONS = {
